@@ -7,6 +7,10 @@ BASE = json.load(open("/root/.vp/BASELINE.json"))["cmd"] if Path("/root/.vp/BASE
     "cd /repo && /venv/bin/python -m pytest -ra -q -p no:cacheprovider --timeout=900 --continue-on-collection-errors --junitxml=<file>"
 
 CHECKS = {
+ "C04": dict(cat="exploration", ref="§C04",
+    tech="property-based testing (Hypothesis): generated models x instances x {dict,filter-none} x {DictEncoder/Decoder, JsonSerializer/Parser}; round-trip oracle + JSON-native walk + json.dumps/loads differential",
+    text="Generated search over binding models with an unambiguous dictionary image, instances and routes; oracles: decode(encode(x)) structurally equals x, the encoded structure is JSON-native and survives json.dumps/json.loads. A dedicated family exercises the documented best-match scoring between candidate models. Searched, not proved.",
+    note="Models are confined to those the docs do not declare ambiguous for JSON; recorded findings (generic elements under FILTER_NONE, formats / numeric enumerations in compound choices) are excluded by construction and replayed from known_findings.json."),
  "C01": dict(cat="exploration", ref="§C01, §3.2",
     tech="property-based testing (Hypothesis): generated binding models x instances x configurations, round-trip oracle with structural equality; collect-bucket-shrink",
     text="Generated search over binding models (ModelSpec generator: all documented field kinds and metadata, inheritance with xsi:type, namespaces, name generators, frozen/slots/kw_only), instances and serializer/parser configurations (both writers, both handlers, indentation, declaration, encodings, user prefix maps aimed at the model's namespaces, default-attribute suppression, shared or separate context). Oracle: parse(serialize(x)) structurally equals x under the strictest parser settings. Searched, not proved.",
